@@ -258,6 +258,36 @@ func cmdVerify(args []string) (code int) {
 	}
 	tSolve := time.Now()
 	DischargeAll(allObls, workdir, timeout, runtime.NumCPU(), seed, *tier == "thorough")
+	// loops renumbered by an edit: functions with `loop n` blocks and a failing obligation are retried with the other
+	// order-preserving assignments of contract loops to code loops
+	for i, fv := range fvs {
+		if fv.fn == nil || fv.con == nil || len(fv.con.Loops) == 0 || fv.sweepMode {
+			continue
+		}
+		failing := false
+		for _, o := range fv.obls {
+			if !o.Cover && o.Result != "unsat" {
+				failing = true
+			}
+		}
+		if !failing {
+			continue
+		}
+		if fv2 := retryLoopBinding(v, fv.fn, fv.con, cfg.ID, workdir, *tier, fv); fv2 != nil {
+			old := map[*Obligation]bool{}
+			for _, o := range fv.obls {
+				old[o] = true
+			}
+			var kept []*Obligation
+			for _, o := range allObls {
+				if !old[o] {
+					kept = append(kept, o)
+				}
+			}
+			allObls = append(kept, fv2.obls...)
+			fvs[i] = fv2
+		}
+	}
 	solveS := time.Since(tSolve).Seconds()
 
 	// known findings
@@ -1120,6 +1150,98 @@ func VerifyLemma(v *Verifier, l *Lemma, prop string) *FuncVC {
 	}
 	fv.finalize()
 	return fv
+}
+
+// retryLoopBinding: if the function has `loop n` blocks, some obligation of the first attempt does not discharge and the
+// code has a different number of loops than the highest `loop n`, the contract's loops are tried against every
+// order-preserving choice of code loops; the first choice under which everything discharges is used (an un-annotated
+// loop added or removed by an edit is then not an alarm). Returns nil when the first attempt stands.
+func retryLoopBinding(v *Verifier, fn *ssa.Function, con *Contract, prop string, workdir string, tier string, first *FuncVC) *FuncVC {
+	if con == nil || len(con.Loops) == 0 {
+		return nil
+	}
+	nCode := len(computeLoops(fn))
+	var specOrds []int
+	maxSpec := 0
+	for n := range con.Loops {
+		specOrds = append(specOrds, n)
+		if n > maxSpec {
+			maxSpec = n
+		}
+	}
+	sort.Ints(specOrds)
+	if nCode < len(specOrds) {
+		return nil
+	}
+	timeout := 10
+	if tier == "thorough" {
+		timeout = 60
+	}
+	allOK := func(fv *FuncVC) bool {
+		DischargeAll(fv.obls, workdir, timeout, runtime.NumCPU(), 0, false)
+		for _, o := range fv.obls {
+			if o.Cover {
+				if o.Result == "unsat" {
+					return false
+				}
+				continue
+			}
+			if o.Result != "unsat" {
+				return false
+			}
+		}
+		return true
+	}
+	// (the caller has discharged the first attempt and found a failure)
+	_ = first
+	// order-preserving injections of the contract's loops into the code's loops
+	var combos [][]int
+	var rec func(start int, cur []int)
+	rec = func(start int, cur []int) {
+		if len(cur) == len(specOrds) {
+			combos = append(combos, append([]int(nil), cur...))
+			return
+		}
+		for c := start; c <= nCode; c++ {
+			rec(c+1, append(cur, c))
+		}
+	}
+	rec(1, nil)
+	if len(combos) > 24 {
+		return nil
+	}
+	for _, combo := range combos {
+		same := true
+		remap := map[int]int{}
+		for i, c := range combo {
+			remap[c] = specOrds[i]
+			if c != specOrds[i] {
+				same = false
+			}
+		}
+		if same {
+			continue
+		}
+		var fv2 *FuncVC
+		func() {
+			defer func() {
+				if r := recover(); r != nil {
+					fv2 = nil
+				}
+			}()
+			fv2 = NewFuncVC(v, fn, con, prop)
+			fv2.loopRemap = remap
+			fv2.VerifyTop()
+		}()
+		if fv2 == nil || len(fv2.obls) == 0 {
+			continue
+		}
+		if allOK(fv2) {
+			fmt.Fprintf(os.Stderr, "note: %s: the loops of the function were renumbered by an edit; its `loop n` blocks hold for the code loops %v\n", shortFuncName(fn), combo)
+			return fv2
+		}
+	}
+	return nil
 }
 
 var unresolvedRe = regexp.MustCompile(`unresolved name "([A-Za-z_][A-Za-z0-9_]*)"`)
